@@ -7,7 +7,7 @@
    tables, assignments and nesting as the graph that was written. *)
 From Coq Require Import List ZArith.
 Import ListNotations.
-From V Require Import Valid.Hier Valid.FlatRegion Model.Serial.
+From V Require Import Valid.Hier Valid.FlatRegion Model.Serial Model.Serial2 Model.Serial2Proof.
 
 Theorem C15_entry_determines_block :
   forall n1 n2, codes_ok n1 = true -> codes_ok n2 = true -> entry_of n1 = entry_of n2 -> SameNode n1 n2.
@@ -29,6 +29,51 @@ Theorem C15_same_dictionary_same_nesting :
 Proof. exact same_dict_same_nesting. Qed.
 Print Assumptions C15_same_dictionary_same_nesting.
 
+(* The round trip itself, over the model of SCFGIO.from_dict / make_scfg
+   (Model/Serial2.v, compared with the implementation run by run).  For EVERY
+   closed hierarchy - unique names; class codes in their families; successors
+   and back edges naming written blocks; each block listed by its parent and
+   only there; the outermost graph closed under successors; in each region the
+   header inside, only the exiting block leaving, every block reachable from the
+   header, the recorded parent the actual one; the nesting a tree - of any size
+   and depth: with enough steps the reader does not raise; the outermost region
+   keeps its name whenever a region recorded it; its graph holds the same
+   blocks; every written block is rebuilt with the same class, payload, ordered
+   successors, back edges, table or assignments, and every region with the same
+   kind, header, exiting block, parent and the same blocks in its graph (Rep);
+   nothing else is built; and writing the result gives the same dictionary. *)
+Theorem C15_round_trip :
+  forall h topn, Closed h topn -> children topn <> [] ->
+  exists N, forall fuel fresh, (N <= fuel)%nat ->
+    exists top ch nodes,
+      from_dict (to_dict h) fuel fresh = Some (top, ch, nodes) /\
+      (top = n_name topn \/
+       top = fresh /\ forall x n, In x (children topn) -> find h x = Some n -> is_region n = false) /\
+      NoDup ch /\ (forall x, In x ch <-> In x (children topn)) /\
+      (forall n, In n h -> nontop n -> exists n', In n' nodes /\ Rep topn top n n') /\
+      (forall n', In n' nodes -> exists n, In n h /\ nontop n /\ Rep topn top n n') /\
+      (forall e, In e (map entry_of nodes) <-> In e (to_dict h)).
+Proof. exact round_trip. Qed.
+Print Assumptions C15_round_trip.
+
+(* whatever number of steps is allowed: a result is the written hierarchy *)
+Theorem C15_reading_back :
+  forall h topn fuel fresh top ch nodes, Closed h topn ->
+  from_dict (to_dict h) fuel fresh = Some (top, ch, nodes) ->
+  (top = n_name topn \/
+   top = fresh /\ forall x n, In x (children topn) -> find h x = Some n -> is_region n = false) /\
+  NoDup ch /\ (forall x, In x ch <-> In x (children topn)) /\
+  (forall n, In n h -> nontop n -> exists n', In n' nodes /\ Rep topn top n n') /\
+  (forall n', In n' nodes -> exists n, In n h /\ nontop n /\ Rep topn top n n').
+Proof. exact from_dict_round_trip. Qed.
+Print Assumptions C15_reading_back.
+
+(* the hypothesis is decidable; the checker is run on every exported hierarchy *)
+Theorem C15_closed_decided :
+  forall h, closedb h = true -> exists topn, topof h = Some topn /\ Closed h topn.
+Proof. exact closedb_sound. Qed.
+Print Assumptions C15_closed_decided.
+
 (* non-vacuity *)
 Local Open Scope Z_scope.
 Example C15_example :
@@ -38,3 +83,22 @@ Example C15_example :
             mkNode 3 10 [3] [3] (KBranch 12 2 [(0, 3)]) ]
   = [ mkDE 5 100 [10] [] [7]; mkDE 10 50 [] [] [2; 3; 3; 1; 3]; mkDE 3 12 [3] [3] [2; 0; 3] ].
 Proof. vm_compute. reflexivity. Qed.
+
+(* the hypotheses of C15_round_trip are met: a loop region inside the outermost graph
+   (all outer blocks are heads of the walk, in sorted order: the insertion order may differ) *)
+Example C15_round_trip_example :
+  let h := [ mkNode 1 0 [] [] (KRegion 1 0 0 [5; 10; 7] 0 true);
+             mkNode 5 1 [10] [] (KOrig 7);
+             mkNode 10 1 [7] [] (KRegion 2 3 4 [3; 4] 1 true);
+             mkNode 3 10 [4] [] (KOrig 8);
+             mkNode 4 10 [3; 7] [3] (KBranch 12 2 [(0, 3); (1, 7)]);
+             mkNode 7 1 [] [] (KOrig 9) ] in
+  closedb h = true /\
+  from_dict (to_dict h) 100 99 =
+    Some (1, [5; 7; 10],
+          [ mkNode 5 1 [10] [] (KOrig 7);
+            mkNode 7 1 [] [] (KOrig 9);
+            mkNode 10 1 [7] [] (KRegion 2 3 4 [3; 4] 1 true);
+            mkNode 3 10 [4] [] (KOrig 8);
+            mkNode 4 10 [3; 7] [3] (KBranch 12 2 [(0, 3); (1, 7)]) ]).
+Proof. vm_compute. split; reflexivity. Qed.
